@@ -60,7 +60,58 @@ fn len_prefix(style: &str, n: usize, fixed: usize, pay: &mut Vec<u8>) -> Vec<u8>
     }
 }
 
+thread_local! {
+    /// When set, BCD numbers are drawn from the edges of their integer type (maximum, maximum + 1, the values whose
+    /// last digit / last two digits overflow), in the plain and in the F-padded odd-digit form, with leading zero bytes.
+    pub static BCD_EDGE: std::cell::Cell<bool> = std::cell::Cell::new(false);
+}
+
+fn bcd_edge(rng: &mut Rng, w: u64) -> Vec<u8> {
+    let max: u128 = match w {
+        1 => u8::MAX as u128,
+        2 => u16::MAX as u128,
+        4 => u32::MAX as u128,
+        _ => u64::MAX as u128,
+    };
+    let v: u128 = match rng.below(8) {
+        0 => max,
+        1 => max + 1,
+        2 => max + rng.range(1, 9) as u128,
+        3 => (max / 10 + 1) * 10 - 1,                   // same leading digits, last digit 9
+        4 => (max / 100) * 100 + 99,                    // same leading digits, last two digits 99
+        5 => (max / 100 + 1) * 100,
+        6 => max - rng.below(3) as u128,
+        _ => max * 10 + rng.below(10) as u128,
+    };
+    let mut d: Vec<u8> = v.to_string().bytes().map(|c| c - b'0').collect();
+    match rng.below(4) {
+        0 => {
+            // F-padded: an odd number of digits followed by the padding nibble
+            if d.len() % 2 == 0 {
+                d.insert(0, 0);
+            }
+            d.push(15);
+        }
+        1 => {
+            if d.len() % 2 == 1 {
+                d.insert(0, 0);
+            }
+            d.insert(0, 0);
+            d.insert(0, 0);
+        }
+        _ => {
+            if d.len() % 2 == 1 {
+                d.insert(0, 0);
+            }
+        }
+    }
+    d.chunks(2).map(|c| c[0] * 16 + c.get(1).copied().unwrap_or(15)).collect()
+}
+
 fn rand_digits_bcd(rng: &mut Rng, max_digits: usize, w: u64) -> Vec<u8> {
+    if BCD_EDGE.with(|e| e.get()) && rng.chance(2, 3) {
+        return bcd_edge(rng, w);
+    }
     let cap = match w {
         1 => 3,
         2 => 5,
